@@ -44,6 +44,11 @@ class Stop:
         self.fired_poll = None
         self.close_after = None
         self.reaction = ("ignore", "await", "await_pull")[tape.draw(3, "reaction")]
+        # freeze: what is still in flight at the stop instant never completes by itself any more,
+        # so only the library's own cancellation can get rid of it
+        self.freeze = bool(tape.draw(2, "freeze"))
+        self.frozen = 0
+        self.executor = None
         self.hook_calls = 0
         self.hook_snapshots = []
         self.aborted_result_settled = None
@@ -63,9 +68,22 @@ class Stop:
             not_before = (0, 1, 2, 3, 5, 8, 13, 21)[when] + tape.draw(3, "abort_jit")
             sim.action(f"abort:{i}", self._abort, not_before=not_before, owner=i)
 
+    def on_stop(self):
+        if not self.freeze:
+            return
+        for e in self.sim.externals:
+            if e.owner == self.i and e.kind in ("res", "anext", "rt") and e.is_pending():
+                # work the executor deliberately settles in the background is never cancelled
+                # (by design); freezing it would only restate that
+                if _awaited_by_background(e, self, self.rr) is True:
+                    continue
+                e.hanging = True
+                self.frozen += 1
+
     def _abort(self):
         self.fired = True
         self.fired_poll = self.sim.poll
+        self.on_stop()
         if self.reason_kind == "default":
             self.controller.abort()
         else:
@@ -82,6 +100,7 @@ class Stop:
             and not (s.exhausted or s.self_failed or s.finalized or s.aclose_done)
         ]
         try:
+            self.executor = info.executor
             tracked = len(info.executor.background_futures)
         except Exception:  # noqa: BLE001
             tracked = -1
@@ -101,7 +120,10 @@ class Stop:
         return kw
 
     def close_now(self, k):
-        return self.kind == "aclose" and k == self.close_after
+        if self.kind == "aclose" and k == self.close_after:
+            self.on_stop()
+            return True
+        return False
 
     async def on_execute_error(self, e, rr):
         """The consumer's reaction to an error from the awaited execution."""
@@ -155,6 +177,7 @@ def evaluate(sim, scn, reqs, results, stops, status, knobs, stats=None):
         rr, stop, req = results[i], stops[i], reqs[i]
         kind = stop.kind if stop else "none"
         hanging_planned = any(fp.fault == "hang" for fp in rs.planner.fields.values())
+        frozen = stop is not None and stop.frozen > 0
         stopped = stop is not None and (stop.fired or rr.stopped)
         # 1. release
         if rr.waiting is not None:
@@ -189,7 +212,10 @@ def evaluate(sim, scn, reqs, results, stops, status, knobs, stats=None):
                 vs.append(Violation(PROP, "hanging_external_not_cancelled", {
                     "stop": kind, "kind": still[0].kind,
                     "signal": stop is not None and stop.controller is not None,
-                    "abort_phase": _phase(stop, rr),
+                    "abort_phase": _phase(stop, rr), "frozen_at_stop": frozen,
+                    # does any task still wait for it, or was the awaitable abandoned un-awaited?
+                    "still_awaited": any(bool(getattr(e.fut, "_callbacks", None)) for e in still),
+                    "awaited_by_background_work": _awaited_by_background(still[0], stop, rr),
                     "unconsumed_aborted_result": _unconsumed([stop], [rr]),
                     "reaction": stop.reaction if kind == "abort" else "-"},
                     {"request": i, "externals": [e.label for e in still][:5]}))
@@ -271,6 +297,48 @@ def evaluate(sim, scn, reqs, results, stops, status, knobs, stats=None):
     return vs
 
 
+def _waiters_of(fut):
+    """Futures/tasks that wait for `fut` (through task wake-ups and gather callbacks)."""
+    out = []
+    for cb in getattr(fut, "_callbacks", None) or ():
+        fn = cb[0] if isinstance(cb, tuple) else cb
+        owner = getattr(fn, "__self__", None)
+        if owner is not None and hasattr(owner, "add_done_callback"):
+            out.append(owner)
+        for cell in getattr(fn, "__closure__", None) or ():
+            try:
+                v = cell.cell_contents
+            except ValueError:
+                continue
+            if hasattr(v, "add_done_callback"):
+                out.append(v)
+    return out
+
+
+def _awaited_by_background(ext, stop, rr=None):
+    """Is the external (transitively) awaited by work the executor settles in the background?
+    (introspective probe for the fingerprint only)"""
+    ex = getattr(rr, "executor", None) or getattr(stop, "executor", None)
+    if ex is None:
+        return "?"
+    try:
+        background = set(map(id, ex.background_futures))
+        seen, todo = set(), [ext.fut]
+        for _ in range(200):
+            if not todo:
+                break
+            f = todo.pop()
+            if id(f) in seen:
+                continue
+            seen.add(id(f))
+            if id(f) in background:
+                return True
+            todo.extend(_waiters_of(f))
+        return False
+    except Exception:  # noqa: BLE001
+        return "?"
+
+
 def _stream_announced(task, results):
     """For a leaked stream producer: was its stream ever announced to the consumer?
     (introspective probe: only refines the fingerprint, never the verdict)"""
@@ -335,13 +403,16 @@ def run_unit(seed=None, unit=None, tier="quick", stats=None):
     big = tier == "thorough"
     stop_kind = STOP_KINDS[ptape.draw(len(STOP_KINDS), "stop_kind")]
     incremental = ptape.draw(4, "incr") != 0
+    focus = unit.get("focus") if unit is not None else ("background" if seed[2] % 5 == 2 else None)
+    if focus == "background":
+        stop_kind = "none"
     scn = build_scenario(ptape, incremental=incremental, max_requests=2, want_r0=True,
-                         allow_hang=stop_kind == "abort",
+                         allow_hang=stop_kind == "abort", focus=focus,
                          max_depth=5 if big else 4, budget=36 if big else 24)
     info = {"pairs": [], "digest": None, "sample": None, "render": None}
     if not scn.requests:
         bump(stats, "counts", "rejected")
-        info["unit"] = {"world": "W1", "plan": ptape.used(), "scheds": []}
+        info["unit"] = {"world": "W1", "plan": ptape.used(), "scheds": [], "focus": focus}
         info["digest"] = "rejected"
         return [], info
     for rs in scn.requests:
@@ -382,6 +453,7 @@ def run_unit(seed=None, unit=None, tier="quick", stats=None):
                     bump(stats, "faults", "stop:aclose")
                     bump(stats, "probes", f"aclose_after_{stp.close_after}_payloads")
                 bump(stats, "probes", "hook_fired", stp.hook_calls)
+                bump(stats, "probes", "externals_frozen_at_stop", stp.frozen)
             bump(stats, "probes", "hanging_externals_cancelled",
                  sum(1 for e in sim.externals if e.hanging and e.state == "cancelled"))
             bump(stats, "probes", "slow_aclose_externals",
@@ -417,7 +489,8 @@ def run_unit(seed=None, unit=None, tier="quick", stats=None):
                 "decision_trace": [[p, f] for p, f in sim.decision_trace[:10]],
             }
         sim.close()
-    info["unit"] = {"world": "W1", "plan": ptape.used(), "scheds": [t.used() for t in sched_tapes]}
+    info["unit"] = {"world": "W1", "plan": ptape.used(), "scheds": [t.used() for t in sched_tapes],
+                    "focus": focus}
     info["digest"] = digest_of(digests)
     info["render"] = dict(scn.render(), stop_kind=stop_kind)
     return violations, info
